@@ -14,18 +14,28 @@ EXHAUSTIVE = {}
 
 def generate(R, tier):
     n = 10000 if tier == "quick" else 500000
+    # a database with NO http record (loaded, but empty): "no match", whatever the process-wide default database holds
+    wget = b"GET / HTTP/1.1\r\nUser-Agent: Wget/1.12\r\nAccept: */*\r\nHost: example.com\r\nConnection: Keep-Alive\r\n\r\n"
+    curl = b"GET / HTTP/1.1\r\nUser-Agent: curl/7.81\r\nHost: example.com\r\nAccept: */*\r\n\r\n"
+    for msg in (wget, curl):
+        for lines in (["[http:request]", "[http:response]"], ["[http:request]", "label = s:!:wget:", "sys = Linux", "[http:response]"], ["[mtu]", "[http:request]"]):
+            for _ in range(4):
+                yield {"stream": "empty-database", "lines": lines + [""] * _, "payload": msg.hex()}
     for _ in range(n):
         direction = R.choice(["request", "response"])
         minor = R.choice([0, 1, 1])
         pool = R.sample(H.NAMES, R.randint(3, 8))
         hs = H.rand_headers(R, pool)
         if R.random() < 0.5:
-            hs.insert(R.randint(0, len(hs)), ["User-Agent" if direction == "request" else "Server", R.choice(["Mozilla/5.0 Firefox/10.0", "curl/7.81", "", "Apache/2.2", "nginx/1.2 (Ubuntu)"])])
+            hs.insert(R.randint(0, len(hs)), ["User-Agent" if direction == "request" else "Server", R.choice(["Mozilla/5.0 Firefox/10.0", "curl/7.81", "", "", " ", "Apache/2.2", "nginx/1.2 (Ubuntu)", "CURL/7.81", "APACHE", "mozilla/5.0 firefox/10.0"])])
         if R.random() < 0.15:
             hs.insert(R.randint(0, len(hs)), [R.choice(["user-agent", "SERVER", "User-Agent"]), R.choice(["", "MSIE 8.0", "curl"])])
         msg, _ = H.render(R, direction, minor, hs, b"", fold=False)
         lines = ["classes = unix,win"]
-        for sec in R.sample(["request", "response"], 2):
+        secs = R.sample(["request", "response"], 2)
+        if R.random() < 0.3:                       # a section continued further down: its records accumulate in file order
+            secs += [R.choice(secs) for _ in range(R.randint(1, 2))]
+        for sec in secs:
             lines.append("[http:%s]" % sec)
             for _ in range(R.randint(1, 8) if sec == direction else R.randint(0, 2)):
                 g = R.random() < 0.4
